@@ -296,6 +296,8 @@ func CoqEvents(r *Result) ([]string, map[string]int) {
 			emit("(ENewCancel %d)", x)
 		case "pool.acq.new.closed":
 			emit("(ENewClosed %d)", x)
+		case "pool.acq.closed":
+			emit("(ENewRefused %d)", x)
 		case "pool.acq.new.dead":
 			emit("(ENewDead %d)", x)
 		case "pool.request":
